@@ -3,6 +3,7 @@ package mp4
 import (
 	"fmt"
 	"io"
+	"strings"
 
 	"github.com/Eyevinn/mp4ff/bits"
 )
@@ -140,10 +141,11 @@ func (b *TrefTypeBox) EncodeSW(sw bits.SliceWriter) error {
 // Info - write box-specific information
 func (b *TrefTypeBox) Info(w io.Writer, specificBoxLevels, indent, indentStep string) error {
 	bd := newInfoDumper(w, indent, b, -1, 0)
-	msg := " - trackIDs: "
+	var msg strings.Builder // Not msg += ..., which is quadratic in the number of track IDs
+	msg.WriteString(" - trackIDs: ")
 	for _, trackID := range b.TrackIDs {
-		msg += fmt.Sprintf(" %d", trackID)
+		fmt.Fprintf(&msg, " %d", trackID)
 	}
-	bd.write(msg)
+	bd.write(msg.String())
 	return bd.err
 }
